@@ -320,7 +320,15 @@ func (e *Exec) concretize(t *Term) *Term {
 		val = e.st.Eval(t, e.model, e.evalMemo)
 	}
 	nx := append(append([]int64(nil), excl...), int64(val))
-	e.pushSibling(Decision{Kind: 'v', Excl: nx})
+	// a sibling path is only worth re-executing if a further value exists (most concretisation points - buffer
+	// offsets that are determined by the path condition - have exactly one)
+	more := make([]*Term, len(nx))
+	for i, x := range nx {
+		more[i] = st.Not(st.Eq(t, st.Const(t.w, uint64(x))))
+	}
+	if v, _ := e.check(more...); v != Unsat {
+		e.pushSibling(Decision{Kind: 'v', Excl: nx})
+	}
 	e.record(Decision{Kind: 'v', Val: int64(val)})
 	c := st.Const(t.w, val)
 	e.addPC(st.Eq(t, c))
